@@ -10,6 +10,8 @@ import Driver.C10
 import Driver.C13
 import Driver.C14
 import Driver.C16
+import Driver.C12
+import Driver.C02
 /-!
 # Line-protocol driver
 
@@ -34,6 +36,8 @@ def dispatch (inp obs : List String) : Verdict :=
   | some "C16" => Driver.C16.run inp obs
   | some "C16path" => Driver.C16.runPath inp obs
   | some "C16pp" => Driver.C16.runPair inp obs
+  | some "C12" => Driver.C12.run inp obs
+  | some "C02" => Driver.C02.run inp obs
   | _ => { agree := false, model := "unknown-model" }
 
 partial def loop (h : IO.FS.Stream) (out : IO.FS.Stream) : IO Unit := do
